@@ -106,3 +106,92 @@ func ZZ_C15(shape int) {
 	verifhook.Assert(locker.intents.FirstNode() == nil, "C15 a waiting request is left in the queue after every request finished")
 	verifhook.Canary()
 }
+
+// ---------- staged releases ----------
+
+type zzC15Stage struct {
+	Reqs  []zzLockReq
+	Order []int // holders are told to release in this order, one per stage
+}
+
+var zzC15Stages = []zzC15Stage{
+	{[]zzLockReq{{Write: []string{"x", "y"}}, {Write: []string{"x"}}, {Write: []string{"y"}}}, []int{0, 1, 2}},
+	{[]zzLockReq{{Write: []string{"x"}}, {Read: []string{"x"}}, {Read: []string{"x"}}}, []int{0, 1, 2}},
+	{[]zzLockReq{{Write: []string{"x", "y"}}, {Read: []string{"x"}}, {Read: []string{"y"}}}, []int{0, 2, 1}},
+	{[]zzLockReq{{Read: []string{"x"}}, {Read: []string{"x"}}, {Write: []string{"x"}}}, []int{0, 1, 2}},
+	{[]zzLockReq{{Write: []string{"x", "y"}}, {Write: []string{"x"}, Cancel: true}, {Write: []string{"y"}}}, []int{0, 1, 2}},
+	{[]zzLockReq{{Write: []string{"x"}}, {Write: []string{"y"}}, {Write: []string{"x", "y"}}}, []int{1, 0, 2}},
+}
+
+func ZZ_C15StageN() int { return len(zzC15Stages) }
+
+func ZZ_C15StageDesc(i int) string { return fmt.Sprintf("%+v", zzC15Stages[i]) }
+
+// ZZ_C15Stage: holders keep their lock until told to release, one per stage. Whenever
+// the system has come to rest, every request that is still pending conflicts with a
+// current holder -- a release grants every request it makes grantable, not just one.
+func ZZ_C15Stage(shape int) {
+	st := zzC15Stages[shape]
+	reqs := st.Reqs
+	locker := NewDefaultLocker()
+	n := len(reqs)
+	holding := make([]bool, n)
+	done := make([]bool, n)
+	gates := make([]chan struct{}, n)
+	overlap := false
+	for i := range reqs {
+		i := i
+		gates[i] = make(chan struct{})
+		ctx := context.Background()
+		if reqs[i].Cancel {
+			var cancel context.CancelFunc
+			ctx, cancel = context.WithCancel(ctx)
+			verifhook.Go(fmt.Sprintf("x%d", i), func() { cancel() })
+		}
+		verifhook.Go(fmt.Sprintf("c%d", i), func() {
+			unlock, err := locker.Lock(ctx, Accounts{Read: reqs[i].Read, Write: reqs[i].Write})
+			if err != nil {
+				done[i] = true
+				return
+			}
+			for j := range reqs {
+				if j != i && holding[j] && zzConflict(reqs[i], reqs[j]) {
+					overlap = true
+				}
+			}
+			holding[i] = true
+			<-gates[i]
+			holding[i] = false
+			unlock(context.Background())
+			done[i] = true
+		})
+	}
+	atRest := func(stage int) {
+		verifhook.Quiesce()
+		for i := range reqs {
+			if done[i] || holding[i] {
+				continue
+			}
+			blocked := false
+			for j := range reqs {
+				if j != i && holding[j] && zzConflict(reqs[i], reqs[j]) {
+					blocked = true
+				}
+			}
+			verifhook.Assert(blocked, fmt.Sprintf("C15 request %d is still pending at rest although no conflicting holder is left (stage %d)", i, stage))
+		}
+	}
+	for s, k := range st.Order {
+		atRest(s)
+		close(gates[k])
+	}
+	atRest(len(st.Order))
+	verifhook.Reach("all-released")
+	verifhook.Assert(!overlap, "C15 two holders overlap on an account one of them writes")
+	for i := range reqs {
+		verifhook.Assert(done[i], fmt.Sprintf("C15 request %d is never granted although every holder released", i))
+	}
+	verifhook.Assert(len(locker.readLocks) == 0 && len(locker.writeLocks) == 0, "C15 locks left behind after every request finished")
+	verifhook.Assert(locker.intents.FirstNode() == nil, "C15 a waiting request is left in the queue after every request finished")
+	verifhook.Canary()
+}
